@@ -527,6 +527,26 @@ def st_For(eng, s, st):
             outs.append((s1, _raise(it)))
             continue
         items = iter_items(eng, s1, it)
+        if items is None and eng.approx_opaque_loops and isinstance(it, Opaque) and not s.orelse:
+            # the iterable is opaque and the unit gave no invariant: over-approximate by "no iteration" and "one arbitrary iteration",
+            # then forget every name the loop assigns (sound for the structural obligations of units that enable it; recorded in stats)
+            eng.stats["approx_loops"] = eng.stats.get("approx_loops", 0) + 1
+            assigned = sorted({n.id for n in ast.walk(s) if isinstance(n, ast.Name) and isinstance(n.ctx, ast.Store)})
+            skip = s1.fork(None, "loop:none")
+            outs.append((skip, NORMAL))
+            one = s1.clone()
+            one.path.append("loop:some")
+            for s3, o in unpack(eng, one, s.target.elts, Opaque("item")) if isinstance(s.target, (ast.Tuple, ast.List)) else assign_target(eng, one, s.target, Opaque("item")):
+                for s4, o4 in run(eng, s.body, s3):
+                    if o4.kind in ("normal", "continue", "break"):
+                        s5 = s4.clone()
+                        for nme in assigned:
+                            if nme in s5.env and not isinstance(s5.env[nme], Ref):
+                                s5.env[nme] = Opaque(f"after-loop:{nme}")
+                        outs.append((s5, NORMAL))
+                    else:
+                        outs.append((s4, o4))
+            continue
         if items is None:
             raise Unsupported(f"for loop without invariant over {it}: {ast.unparse(s.iter)[:60]}")
         cur = [s1]
@@ -559,4 +579,18 @@ def st_While(eng, s, st):
     h = eng.loop_specs.get(id(s))
     if h is not None:
         return h(eng, s, st)
+    if eng.approx_opaque_loops and not s.orelse:
+        # over-approximation (see st_For): the loop runs an unknown number of times; forget what it assigns
+        eng.stats["approx_loops"] = eng.stats.get("approx_loops", 0) + 1
+        assigned = sorted({n.id for n in ast.walk(s) if isinstance(n, ast.Name) and isinstance(n.ctx, ast.Store)})
+        outs = []
+        for s1, o in run(eng, s.body, st.fork(None, "while:some")):
+            if o.kind not in ("normal", "continue", "break"):
+                outs.append((s1, o))
+        s2 = st.fork(None, "while:done")
+        for nme in assigned:
+            if nme in s2.env and not isinstance(s2.env[nme], Ref):
+                s2.env[nme] = Opaque(f"after-loop:{nme}")
+        outs.append((s2, NORMAL))
+        return outs
     raise Unsupported("while loop without invariant")
